@@ -80,6 +80,9 @@ static Verdict exec_ple(const Case &c) {
   Mat S = oa.read();
   x.wr(oa, "A");
   x.v.out((u64)got);
+  for (int v : Pv) x.v.raw((u64)(long long)v);
+  for (int v : Qv) x.v.raw((u64)(long long)v);
+  x.v.raw(S.hash());
   auto done = [&]() {
     bool gaps = false;
     for (int i = 0; i < rk; i++) gaps = gaps || piv[i] != i;
